@@ -5,15 +5,22 @@
 (* histories (linearizability of registers is local: a history is          *)
 (* linearizable iff its per-key sub-histories are), each                   *)
 (*   reset  {key}                                                          *)
-(*   call   {c, op, v}      logged by client c just before the call        *)
+(*   call   {c, op, v, xerr, xres}  logged by client c just before the     *)
+(*                          call (xerr/xres repeat the outcome logged on   *)
+(*                          the matching ret: a join of two events)        *)
 (*   ret    {c, err, res}   logged by client c just after the return       *)
 (*   final  {live, rec}     at quiescence: Get on the live database, and   *)
 (*                          Get after Close + Open                         *)
 (* in the order of a global atomic counter.  The linearization point of    *)
 (* each call is not logged: Lin(c) is a silent step that TLC places        *)
-(* anywhere between the call and the return.  The history is accepted iff  *)
-(* some placement explains every Get result, and ends with the register    *)
-(* equal to both the live and the recovered value.                         *)
+(* between the call and the return.  The history is accepted iff some      *)
+(* placement explains every Get result, and ends with the register equal   *)
+(* to both the live and the recovered value.  Two restrictions keep the    *)
+(* search small without losing any linearization: (1) a silent step is     *)
+(* taken only when the next logged event is a return (any linearization    *)
+(* point can be moved forward to just before the next return event: call   *)
+(* events constrain nothing); (2) a Get is linearized only where the       *)
+(* register holds the value its return reports.                            *)
 (* Further event kinds (C09): cop {op, err} one completed call of the      *)
 (* mixed workload; note {check, ok}.                                       *)
 (***************************************************************************)
@@ -36,16 +43,18 @@ Without(f, x) == [y \in DOMAIN f \ {x} |-> f[y]]
 
 TReset == /\ Is("reset") /\ pend = <<>> /\ l' = l + 1 /\ reg' = Nil /\ pend' = <<>>
 TCall  == /\ Is("call") /\ E.c \notin DOMAIN pend /\ l' = l + 1
-          /\ pend' = pend @@ (E.c :> [op |-> E.op, v |-> E.v, lin |-> FALSE, r |-> Nil])
+          /\ pend' = pend @@ (E.c :> [op |-> E.op, v |-> E.v, lin |-> FALSE, xerr |-> E.xerr, xres |-> E.xres])
           /\ UNCHANGED reg
 \* the silent linearization step of a pending call
-Lin(c) == /\ c \in DOMAIN pend /\ ~pend[c].lin
+Lin(c) == /\ c \in DOMAIN pend /\ ~pend[c].lin /\ Is("ret")
+          /\ pend[c].op = "Get" => IF reg = Nil THEN pend[c].xerr = "notfound" ELSE pend[c].xerr = "ok" /\ pend[c].xres = reg
           /\ reg' = CASE pend[c].op = "Put" -> pend[c].v [] pend[c].op = "Delete" -> Nil [] OTHER -> reg
-          /\ pend' = [pend EXCEPT ![c].lin = TRUE, ![c].r = reg]
+          /\ pend' = [pend EXCEPT ![c].lin = TRUE]
           /\ UNCHANGED l
 TRet   == /\ Is("ret") /\ E.c \in DOMAIN pend /\ pend[E.c].lin /\ l' = l + 1
+          \* (a Get's result was compared with the register at its linearization step)
           /\ LET p == pend[E.c] IN
-             IF p.op = "Get" THEN (IF p.r = Nil THEN E.err = "notfound" ELSE E.err = "ok" /\ E.res = p.r)
+             IF p.op = "Get" THEN E.err = p.xerr /\ E.res = p.xres /\ E.err \in {"ok", "notfound"}
              ELSE E.err = "ok"
           /\ pend' = Without(pend, E.c) /\ UNCHANGED reg
 \* at quiescence the live value and the value recovered by a restart are the register's
